@@ -29,9 +29,10 @@ type c06Op struct {
 }
 
 type c06Case struct {
-	Ops   []c06Op `json:"ops"`
-	Enc   string  `json:"enc"`
-	Prior int     `json:"prior_renders,omitempty"` // renders made between the setter calls and the judged render / send
+	Ops     []c06Op `json:"ops"`
+	Enc     string  `json:"enc"`
+	Charset string  `json:"charset,omitempty"`       // message charset (WithCharset); display names are UTF-8 strings whatever it is
+	Prior   int     `json:"prior_renders,omitempty"` // renders made between the setter calls and the judged render / send
 }
 
 type maddr struct{ Name, Addr string }
@@ -269,7 +270,11 @@ func runC06Case(r *ev.Run, c c06Case) {
 	viol := func(key, what string, obs any) {
 		r.Violate(ev.Violation{Key: key, What: what, Case: c, Observed: obs})
 	}
-	m := mail.NewMsg(mail.WithEncoding(mail.Encoding(c.Enc)))
+	mopts := []mail.MsgOption{mail.WithEncoding(mail.Encoding(c.Enc))}
+	if c.Charset != "" {
+		mopts = append(mopts, mail.WithCharset(mail.Charset(c.Charset)))
+	}
+	m := mail.NewMsg(mopts...)
 	m.Subject("c06")
 	m.SetBodyString(mail.TypeTextPlain, "body text\r\n")
 	model := &c06Model{lists: map[string][]maddr{}}
@@ -378,6 +383,12 @@ func runC06Case(r *ev.Run, c c06Case) {
 		}
 		std, serr := netmail.ParseAddressList(got[0])
 		for i := range as {
+			if len(as[i].Labels) > 0 {
+				r.Count("encoded_display_names_checked", 1)
+				if mimeread.CollapseWS(as[i].NameByLabel) != mimeread.CollapseWS(want[i].Name) {
+					viol("header-charset-label:"+field, fmt.Sprintf("%s[%d]: a reader that honours the charset labels %v of the encoded-words reads the name %q, set was %q (message charset %q)", field, i, as[i].Labels, as[i].NameByLabel, want[i].Name, c.Charset), got[0])
+				}
+			}
 			if as[i].Spec() != want[i].Addr || mimeread.CollapseWS(as[i].Name) != mimeread.CollapseWS(want[i].Name) {
 				viol("header-value:"+field, fmt.Sprintf("%s[%d] parses back to %q <%s>, set was %q <%s>", field, i, as[i].Name, as[i].Spec(), want[i].Name, want[i].Addr), got[0])
 			}
@@ -480,6 +491,9 @@ func runC06(r *ev.Run, rep *ev.ReplayDoc) ev.Summary {
 		c := genC06(r.Rng("c06", i), i)
 		if i%4 == 3 {
 			c.Prior = 1
+		}
+		if i%3 == 1 {
+			c.Charset = []string{"ISO-8859-1", "US-ASCII", "UTF-8", "ISO-8859-15", "windows-1252", "Shift_JIS"}[(i/3)%6]
 		}
 		if i%997 == 0 {
 			r.Sample(c)
